@@ -89,14 +89,15 @@ LinGeoms(n) ==
 NonLinProj(n) == { Geo("step", n, StepK(n, FALSE), 1, n, "max", StepAsg(n, FALSE)),
                    Geo("step", n, StepK(n, TRUE), 1, n, "min", StepAsg(n, TRUE)) }
 NonLinGeoms(n) == { Geo("ugradlin", n, IF n = 6 THEN 3 ELSE 2, 1, n, "", <<>>), Geo("ugradtri", n, n, 1, n, "", <<>>),
-                    Geo("mappednl", n, n, 1, n, "", <<>>), Geo("noinv", n, n, 1, n, "", <<>>) }
+                    Geo("mappednl", n, n, 1, n, "", <<>>), Geo("noinv", n, n, 1, n, "", <<>>),
+                    Geo("ugradnoinv", n, n, 1, n, "", <<>>) }
 
-TriKinds == {"ugradtri", "mappednl", "noinv"}
+TriKinds == {"ugradtri", "mappednl", "noinv", "ugradnoinv"}
 IdTypeKinds == {"cont1d", "default1d", "discrete", "visual", "cont2d", "imgC", "imgF"}
 Linear(g)    == g.kind \notin TriKinds                                   \* par2fun is a linear map
 F2PLinear(g) == Linear(g) /\ ~(g.kind = "step" /\ g.proj # "mean")      \* fun2par is a linear map
-HasF2P(g)    == g.kind # "noinv"
-HasGrad(g)   == g.kind \in {"ugradlin", "ugradtri"}                      \* geometry offers `gradient`
+HasF2P(g)    == g.kind \notin {"noinv", "ugradnoinv"}                        \* fun2par is implemented
+HasGrad(g)   == g.kind \in {"ugradlin", "ugradtri", "ugradnoinv"}                     \* geometry offers `gradient`
 IdType(g)    == g.kind \in IdTypeKinds                                   \* listed by _get_identity_geometries()
 VecFun(g)    == g.kind \notin {"imgC", "imgF", "cont2d"}                 \* function values are 1-D vectors
 
